@@ -157,6 +157,25 @@ pub(crate) fn handle_submit(
         return ToClientMessage::Error(format!("Invalid resource request: {e}"));
     }
 
+    if let JobTaskDescription::Array {
+        ids,
+        entries: Some(entries),
+        ..
+    } = &message.submit_desc.task_desc
+        && !ids.is_empty()
+    {
+        // Each task takes one entry. The job creates a task for each id, tako gets a task
+        // for each (id, entry) pair; they have to be the same tasks.
+        // Note: `IntArray::id_count` is not the number of ids of a range with a step
+        let n_ids = ids.iter().count();
+        if n_ids != entries.len() {
+            return ToClientMessage::Error(format!(
+                "Invalid submit: the number of task ids ({n_ids}) does not match the number of entries ({})",
+                entries.len()
+            ));
+        }
+    }
+
     let mut state = state_ref.get_mut();
     if let Some(err) = validate_submit(
         message.job_id.and_then(|job_id| state.get_job(job_id)),
